@@ -22,7 +22,7 @@ Theorem fn_constant_import_refuted :
                    dget fkey_eqb ("verif.fn", "Fused", ov) fs = Some fd /\ fn_imports_ok fd = false.
 Proof. do 3 eexists. split; [vm_compute; reflexivity|]. split; vm_compute; reflexivity. Qed.
 
-(* the repair (proposed_fixes/C07_as_function_constant_default_domain_import.diff): filter by the domains of the nodes of
+(* the repair (proposed_fixes/ready/C07_04_as_function_constant_default_domain_import.diff): filter by the domains of the nodes of
    the function body; then the function imports every domain its body uses that the parent imports *)
 Theorem fn_constant_import_fixed : forall site isfn i q fs ov fs' fd,
   add_function site isfn i q fs = Some (ov, fs') ->
